@@ -272,7 +272,8 @@ PROPS = {
                    "NOT decided: root (Newton iteration seeded by a float; Kani per width at 3-8 bits: values, early exits, panics), the approx_* functions",
         technique="deductive contracts (Verus, all widths) for pow and log; Kani per width for root and as counterexample source for log",
         units=["core", "basics", "kernels", "addnx1", "addmul", "addmul_n", "mul", "pow", "bitlen", "conv", "logs"],
-        kani=dict(features=None, quick=hs("c13"), thorough=hs("c13"), bounds="log/root: tiny widths only (values at 2-8 bits; None/panic conditions at 1..250 bits)"),
+        kani=dict(features=None, quick=hs("c13"), thorough=hs("c13"), bounds="log/root: tiny widths only (values at 2-8 bits; None/panic conditions at 1..250 bits); pow: no Kani harness (a symbolic multiply ladder is out of reach) - the native-only bodies c13n_pow_* are run by the native sweep (bounded: generated operands incl. exponents >= 2^64)",
+                  sweep_only=["c13n::c13n_pow_w8", "c13n::c13n_pow_w64", "c13n::c13n_pow_w65", "c13n::c13n_pow_w128", "c13n::c13n_pow_w192"]),
         explanation="pow: invariant result * base^exp = a^e over ghost true values. log: first loop keeps base^(result-1) <= value and ends with base^result <= value; second loop ends with value < base^(result+1); "
                     "result < BITS bounds both loops and the final conversion",
         trusted=COMMON_TRUST + ["floating-point estimate of log: at most floor(log)+1 (one-sided; libm log2, f64 division and rounding)"],
